@@ -294,14 +294,28 @@ func (r *Runner) exec(ctx boltz.MutateContext, s *Step, salt int) (ret string, e
 		} else {
 			err = S.People.DeleteWhere(ctx, q)
 		}
-	case "createTeam":
-		err = S.Teams.Create(ctx, &schema.Team{Id: id})
+	case "createTeam", "updateTeam":
+		tm := &schema.Team{Id: id}
+		if c := str(a["chief"]); c != "" && c != project.Nil {
+			real := tok.Real(c)
+			tm.Chief = &real
+		}
+		if s.op() == "createTeam" {
+			err = S.Teams.Create(ctx, tm)
+		} else {
+			err = S.Teams.Update(ctx, tm, nil)
+		}
 	case "deleteTeam":
 		err = S.Teams.DeleteById(ctx, id)
 	case "addLinks", "removeLinks", "setLinks":
 		lc := S.People.Links
-		if str(a["side"]) == "teams" {
+		switch str(a["side"]) {
+		case "teams":
 			lc = S.Teams.Links
+		case "staff":
+			lc = S.Staff.Squads
+		case "squads":
+			lc = S.Teams.Squads
 		}
 		ks := realList(tok, a["keys"], salt)
 		switch s.op() {
@@ -505,14 +519,21 @@ func (r *Runner) Run(steps []Step) bool {
 				}
 				// the model rejects the call
 				r.OpsFailed++
+				via := str(s.args()["via"])
+				if m, ok := prevDb(steps, at)["ext"].(map[string]any); ok {
+					// a call on an entity that has child data is the child store's business whichever store it was issued through
+					if x, ok := m[str(s.args()["id"])].(map[string]any); ok && x["none"] == nil {
+						via = "staff"
+					}
+				}
 				if err == nil {
-					r.viol(at, "missing-error", classOwnersVia(s.op(), s.app(), str(s.args()["via"]), true), fmt.Sprintf("%s %v reported success, model demands one of %v", s.op(), s.args(), s.app()), nil, "missing-error:"+s.op()+":"+strings.Join(s.app(), "+"))
+					r.viol(at, "missing-error", classOwnersVia(s.op(), s.app(), via, true), fmt.Sprintf("%s %v reported success, model demands one of %v", s.op(), s.args(), s.app()), nil, "missing-error:"+s.op()+":"+strings.Join(s.app(), "+"))
 					divergedAt = at
 					opErr = ErrEnd
 					return ErrEnd
 				}
 				if want := Coarsen(s.op(), s.app()); !want[Classify(err)] {
-					r.viol(at, "wrong-error-class", classOwnersVia(s.op(), s.app(), str(s.args()["via"]), false), fmt.Sprintf("%s %v failed with class %s (%v), model allows %s", s.op(), s.args(), Classify(err), err, keys(want)), nil, "wrong-error-class:"+s.op()+":"+Classify(err)+":"+strings.Join(s.app(), "+"))
+					r.viol(at, "wrong-error-class", classOwnersVia(s.op(), s.app(), via, false), fmt.Sprintf("%s %v failed with class %s (%v), model allows %s", s.op(), s.args(), Classify(err), err, keys(want)), nil, "wrong-error-class:"+s.op()+":"+Classify(err)+":"+strings.Join(s.app(), "+"))
 				}
 				opErr = err
 				return err
